@@ -779,6 +779,14 @@ func (bp *brokerProducer) run() {
 				continue
 			}
 
+			if msg.flags&fin == fin {
+				// a chaser that reached a broker producer which is not bouncing its partition
+				// (e.g. one created after the partition moved on): send it straight back,
+				// it must never be buffered as if it were a message
+				bp.parent.retryMessage(msg, ErrShuttingDown)
+				continue
+			}
+
 			if bp.buffer.wouldOverflow(msg) {
 				Logger.Printf("producer/broker/%d maximum request accumulated, waiting for space\n", bp.broker.ID())
 				if err := bp.waitForSpace(msg, false); err != nil {
